@@ -413,6 +413,13 @@ theorem minimal_parentheses_injective (e₁ e₂ : E) (h₁ : wf ddpTbl e₁) (h
   pp_injective ddpTbl e₁ e₂ h₁ h₂ h
 
 open DDP.LadderParse in
+/-- the ladder reads from the front and leaves the rest alone: what a rung hands back as remaining tokens is a suffix of what it
+was given (no token dropped from the middle, reordered or invented), for every token sequence -/
+theorem ladder_reads_from_the_front (f k : Nat) (ts : List Tok) (x : E × List Tok) (h : parse ddpTbl f k ts = some x) :
+    ∃ pre, ts = pre ++ x.2 :=
+  (consumes_prefix ddpTbl f).1 k ts x h
+
+open DDP.LadderParse in
 /-- the parser is a function of the tokens: the fuel only decides whether it finishes -/
 theorem ladder_parse_deterministic {f f' k ts x y} (h : parse ddpTbl f k ts = some x) (h' : parse ddpTbl f' k ts = some y) :
     x = y := parse_det ddpTbl h h'
